@@ -172,6 +172,27 @@ theorem c17_round_exactly_the_subscribers (g0 g : EG) (es : List EGEv) (h0 : Fre
         exact congrArg (fun p => p.2.2.2.2.2.2.2.2.2.2) (runTask_single_spec ({ x with pending := x.pending.tail }) ep sel).1
     rw [key]; rfl
 
+/-- a CYCLIC round is such a round too: when the cyclic task wakes up in a reachable state without pending tasks, exactly
+one attempt per current subscriber is made, in order, each transmitting at most one datagram to its own endpoint, and no task
+is left pending -/
+theorem c17_cyclic_round_exactly_the_subscribers (g0 g : EG) (es : List EGEv) (h0 : FreshEG g0) (hrun : runAllEG g0 es = some g)
+    (hp : g.pending = []) :
+    g.subscribed.Nodup ∧
+    ∃ obs : List (Option Bytes), obs.length = g.subscribed.length ∧
+      g.cyclicWake.sent = g.sent ++ (g.subscribed.zip obs).filterMap (fun p => p.2.map (fun b => (g.now, p.1, b))) ∧
+      g.cyclicWake.pending = [] := by
+  obtain ⟨hnd, obs, o1, o2, o3, _⟩ :=
+    c17_round_exactly_the_subscribers g0 g es h0 hrun .allKeys (1 + g.subscribed.length + 2) hp (by omega)
+  refine ⟨hnd, obs, o1, ?_, ?_⟩
+  · have : g.cyclicWake.sent = (({ g with pending := [NTask.all .allKeys] } : EG).settle (1 + g.subscribed.length + 2)).sent := by
+      unfold cyclicWake
+      simp only [hp, List.nil_append, List.length_singleton]
+    rw [this]; exact o2
+  · have : g.cyclicWake.pending = (({ g with pending := [NTask.all .allKeys] } : EG).settle (1 + g.subscribed.length + 2)).pending := by
+      unfold cyclicWake
+      simp only [hp, List.nil_append, List.length_singleton]
+    rw [this]; exact o3
+
 /-- an explicit request is such a round exactly when somebody is subscribed, and nothing at all otherwise -/
 theorem c17_notify_once_is_a_round (g0 g : EG) (es : List EGEv) (h0 : FreshEG g0) (hrun : runAllEG g0 es = some g)
     (evs : List Nat) (hp : g.pending = []) :
